@@ -57,10 +57,18 @@ def run(tier):
                     t = g.blocks[d[2]]["t"]
                     ext_from_param = identity_param(g, t["args"][1]) == 3
                     base = origins(g, t["args"][0], transparent=lambda c: [0] if c and c.endswith("::deref") else None)
-                    joined = any(x[0] == "call" and x[1].endswith("Path::join") for x in base)
-                    okext = ext_from_param and joined
+                    joins = [x for x in base if x[0] == "call" and x[1].endswith("Path::join")]
+                    joined = bool(joins)
+                    # what is joined: the grammar's full file name (with_extension then replaces only `.lalrpop`)
+                    comp_ok = False
+                    for x in joins:
+                        jt = g.blocks[x[2]]["t"]
+                        comp = origins(g, jt["args"][1], transparent=lambda c: [0] if c and (c.endswith("::branch") or c.endswith("::ok_or_else") or c.endswith("::ok_or") or c.endswith("::unwrap") or c.endswith("::as_ref") or c.endswith("::deref")) else None)
+                        cs = {y[1].split("::")[-1] for y in comp if y[0] == "call"}
+                        comp_ok = cs == {"file_name"} and all(identity_param(g, g.blocks[y[2]]["t"]["args"][0]) == 2 for y in comp if y[0] == "call")
+                    okext = ext_from_param and joined and comp_ok
     rep.ob("resolve.path-is-outdir-join-name-with-ext", "gen_resolve_file: Ok(out_dir.join(file_name).with_extension(ext))", okext,
-           "the resolved path is not out_dir.join(file_name).with_extension(ext)", key="resolve-shape", file=rel, line=g.line, fn=g.path)
+           "the resolved path is not out_dir.join(<file name of the grammar>).with_extension(ext): e.g. joining the file stem makes `a.b.lalrpop` and `a.lalrpop` collide on `a.rs`", key="resolve-shape", file=rel, line=g.line, fn=g.path)
     exts = {}
     for name in ("resolve_rs_file", "resolve_report_file"):
         b = f.one(r"^lalrpop::build::%s$" % name)
